@@ -8,10 +8,12 @@
     sanitize_total stripentities_total sanitize_css_total
     only_safe_elems_attrs no_comments
     wellnested_in_out end_tags_safe dropped_subtree_absent
-    uri_attrs_checked uri_attrs_scheme_mod_punct uri_attrs_safe_partial scheme_punct_witness
+    uri_attrs_checked uri_attrs_safe scheme_punct_rejected
     css_comments_dotall css_expression_classes_cover css_decode_fixed css_no_expression
-    css_urls_scheme_mod_punct css_urls_safe_partial css_scheme_punct_witness
+    css_urls_safe css_scheme_punct_rejected
     attr_value_roundtrip uri_attrs_scheme_serialised default_config_script_free
+    html_reparse_safe_partial xhtml_reparse_safe_partial default_config_markup_ok css_pass_order_matters
+    attr_values_decode_stable html_reparse_events_safe_partial redecode_witness
 -/
 import Genshi.Lemmas.SanNest
 import Genshi.Lemmas.SanTree
@@ -19,6 +21,9 @@ import Genshi.Lemmas.SanForest
 import Genshi.Lemmas.SanUri
 import Genshi.Lemmas.SanCssUrl
 import Genshi.Lemmas.SanRoundtrip
+import Genshi.Lemmas.SanReparse
+import Genshi.Lemmas.SanLayer
+import Genshi.Props.C08
 namespace Genshi.Props.C06
 open Genshi Genshi.San Genshi.San.Spec
 
@@ -210,31 +215,15 @@ theorem uri_attrs_checked {cfg : Cfg} {s o : Stream} (h : sanitize cfg s = .ok o
     simpa using hu
   | other hw hns hnc => exact absurd rfl (hns tag attrs)
 
-/-
-  Full statement (the property): for every URI attribute `(n, v)` of the output,
-      browserScheme v = none ∨ ∃ sch, browserScheme v = some sch ∧ sch ∈ cfg.safeSchemes.
-  It is FALSE of the code: `is_safe_uri` deletes every non-alphanumeric character before it
-  compares, so `h-t-t-p:` counts as `http` while a browser reads the scheme `h-t-t-p`
-  (`scheme_punct_witness`, known finding C06-scheme-punct).  Proved below for every scheme
-  without `+`, `-`, `.` — the only characters of a syntactically valid scheme that the code
-  deletes and a browser keeps.
--/
-/-- What holds for EVERY emitted URI attribute, without exception: the scheme the browser reads,
-    with its `+ - .` removed, is a safe scheme (so the only deviation from the full statement is
-    the punctuation of finding C06-scheme-punct). -/
-theorem uri_attrs_scheme_mod_punct {cfg : Cfg} {s o : Stream} (h : sanitize cfg s = .ok o)
+/-- **Every emitted URI attribute has a safe scheme, as a browser reads it** (white space and
+    control characters removed, the text before the first colon if it has the syntax of a
+    scheme, ASCII case folded) — for all configurations and all input streams.  Full strength
+    since the repair of `is_safe_uri` (it used to delete `+ - .`, so `h-t-t-p:` counted as `http`). -/
+theorem uri_attrs_safe {cfg : Cfg} {s o : Stream} (h : sanitize cfg s = .ok o)
     {tag : QName} {attrs : AttrList} (hm : Event.start tag attrs ∈ o)
     {a : QName × Str} (ha : a ∈ attrs) (hu : a.1.text ∈ cfg.uriAttrs)
-    {sch : Str} (hb : browserScheme a.2 = some sch) : dropPunct sch ∈ cfg.safeSchemes :=
-  isSafeUri_sound_mod_punct (uri_attrs_checked h hm ha hu) hb
-
-/-- search: uri -/
-theorem uri_attrs_safe_partial {cfg : Cfg} {s o : Stream} (h : sanitize cfg s = .ok o)
-    {tag : QName} {attrs : AttrList} (hm : Event.start tag attrs ∈ o)
-    {a : QName × Str} (ha : a ∈ attrs) (hu : a.1.text ∈ cfg.uriAttrs)
-    {sch : Str} (hb : browserScheme a.2 = some sch) (hp : ∀ c ∈ sch, c ≠ '+' ∧ c ≠ '-' ∧ c ≠ '.') :
-    sch ∈ cfg.safeSchemes :=
-  isSafeUri_sound (uri_attrs_checked h hm ha hu) hb hp
+    {sch : Str} (hb : browserScheme a.2 = some sch) : sch ∈ cfg.safeSchemes :=
+  isSafeUri_sound (uri_attrs_checked h hm ha hu) hb
 
 def hrefName : QName := ⟨[], ['h', 'r', 'e', 'f']⟩
 def aTag : QName := ⟨[], ['a']⟩
@@ -242,13 +231,11 @@ def scriptTag : QName := ⟨[], ['s', 'c', 'r', 'i', 'p', 't']⟩
 def punctUri : Str := ['h', '-', 't', '-', 't', '-', 'p', ':', '/', '/', 'x']
 def jsUri : Str := ['j', 'a', 'v', 'a', '\t', 's', 'c', 'r', 'i', 'p', 't', ':', 'x']
 
-/-- Negation witness of the full statement: the default configuration emits `href="h-t-t-p://x"`,
-    whose scheme as a browser reads it is `h-t-t-p`, not a safe scheme. -/
-theorem scheme_punct_witness :
-    sanitize Cfg.default [.start aTag [(hrefName, punctUri)], .end_ aTag] =
-        .ok [.start aTag [(hrefName, punctUri)], .end_ aTag] ∧
-      browserScheme punctUri = some ['h', '-', 't', '-', 't', '-', 'p'] ∧
-      ['h', '-', 't', '-', 't', '-', 'p'] ∉ Cfg.default.safeSchemes := by
+/-- Regression of finding C06-scheme-punct (fixed): `href="h-t-t-p://x"`, whose scheme a browser
+    reads as `h-t-t-p`, is dropped now. -/
+theorem scheme_punct_rejected :
+    sanitize Cfg.default [.start aTag [(hrefName, punctUri)], .end_ aTag] = .ok [.start aTag [], .end_ aTag] ∧
+      browserScheme punctUri = some ['h', '-', 't', '-', 't', '-', 'p'] := by
   decide +kernel
 
 -- non-vacuity: a URI with an embedded tab is read as `javascript` by the browser-side reader,
@@ -260,7 +247,7 @@ example : sanitize Cfg.default
     .ok [.start aTag [], .end_ aTag] := by decide +kernel
 -- `end_tags_safe` needs well-nested input: a stray END event is passed through
 example : sanitize Cfg.default [.end_ scriptTag] = .ok [.end_ scriptTag] := by decide +kernel
--- `uri_attrs_safe_partial` is not vacuous: an accepted URI with a plain scheme
+-- `uri_attrs_safe` is not vacuous: an accepted URI with a scheme
 example : sanitize Cfg.default [.start aTag [(hrefName, ['H', 't', 'T', 'p', ':', 'x'])], .end_ aTag] =
     .ok [.start aTag [(hrefName, ['H', 't', 'T', 'p', ':', 'x'])], .end_ aTag] ∧
     browserScheme ['H', 't', 'T', 'p', ':', 'x'] = some ['h', 't', 't', 'p'] := by decide +kernel
@@ -320,32 +307,16 @@ theorem css_no_expression {cfg : Cfg} (hcfg : CssNamesPlain cfg) {s o : Stream} 
   obtain ⟨x, decls, hd, hj⟩ := style_attr_emitted h hm ha hs hu
   rw [hj]; exact sanitizeCss_no_expression css_comments_dotall hcfg hd
 
-/-
-  Full statement (the property): for every `url(` argument `arg` of the decoded style value,
-      browserScheme (trimArg arg) = none ∨ ∃ sch, … = some sch ∧ sch ∈ cfg.safeSchemes.
-  FALSE of the code for the same reason as `uri_attrs_safe_partial` (`css_scheme_punct_witness`,
-  finding C06-scheme-punct); proved for every scheme without `+`, `-`, `.`.
--/
-/-- What holds for EVERY `url(` argument of an emitted style value, without exception: the scheme
-    the browser reads in it, with its `+ - .` removed, is a safe scheme. -/
-theorem css_urls_scheme_mod_punct {cfg : Cfg} (hcfg : CssNamesPlain cfg) {s o : Stream} (h : sanitize cfg s = .ok o)
+/-- **Every `url(` argument of an emitted style value, as the browser decodes and reads it, has
+    a safe scheme** (full strength since the repair of `is_safe_uri`). -/
+theorem css_urls_safe {cfg : Cfg} (hcfg : CssNamesPlain cfg) {s o : Stream} (h : sanitize cfg s = .ok o)
     {tag : QName} {attrs : AttrList} (hm : Event.start tag attrs ∈ o)
     {a : QName × Str} (ha : a ∈ attrs) (hs : a.1.text = styleWord) (hu : styleWord ∉ cfg.uriAttrs)
     {arg : Str} (harg : arg ∈ urlArgs (cssDecode a.2))
-    {sch : Str} (hb : browserScheme (trimArg arg) = some sch) : dropPunct sch ∈ cfg.safeSchemes := by
+    {sch : Str} (hb : browserScheme (trimArg arg) = some sch) : sch ∈ cfg.safeSchemes := by
   obtain ⟨x, decls, hd, hj⟩ := style_attr_emitted h hm ha hs hu
   rw [hj] at harg
   exact sanitizeCss_urls_safe css_comments_dotall hcfg hd arg harg sch hb
-
-/-- search: css -/
-theorem css_urls_safe_partial {cfg : Cfg} (hcfg : CssNamesPlain cfg) {s o : Stream} (h : sanitize cfg s = .ok o)
-    {tag : QName} {attrs : AttrList} (hm : Event.start tag attrs ∈ o)
-    {a : QName × Str} (ha : a ∈ attrs) (hs : a.1.text = styleWord) (hu : styleWord ∉ cfg.uriAttrs)
-    {arg : Str} (harg : arg ∈ urlArgs (cssDecode a.2))
-    {sch : Str} (hb : browserScheme (trimArg arg) = some sch) (hp : ∀ c ∈ sch, c ≠ '+' ∧ c ≠ '-' ∧ c ≠ '.') :
-    sch ∈ cfg.safeSchemes := by
-  have := css_urls_scheme_mod_punct hcfg h hm ha hs hu harg hb
-  rwa [dropPunct_of_plain hp] at this
 
 /-- a configuration that allows `style` attributes -/
 def styleCfg : Cfg := { Cfg.default with safeAttrs := styleWord :: Cfg.default.safeAttrs }
@@ -354,13 +325,9 @@ def divTag : QName := ⟨[], ['d', 'i', 'v']⟩
 def punctCss : Str := ['c', 'o', 'l', 'o', 'r', ':', ' ', 'u', 'r', 'l', '(', 'h', '-', 't', '-', 't', '-', 'p',
   ':', 'x', ')']
 
-/-- Negation witness of the full statement for `url()`: `color: url(h-t-t-p:x)` is emitted. -/
-theorem css_scheme_punct_witness :
-    sanitize styleCfg [.start divTag [(styleName, punctCss)], .end_ divTag] =
-        .ok [.start divTag [(styleName, punctCss)], .end_ divTag] ∧
-      urlArgs (cssDecode punctCss) = [['h', '-', 't', '-', 't', '-', 'p', ':', 'x']] ∧
-      browserScheme (trimArg ['h', '-', 't', '-', 't', '-', 'p', ':', 'x']) = some ['h', '-', 't', '-', 't', '-', 'p'] ∧
-      ['h', '-', 't', '-', 't', '-', 'p'] ∉ styleCfg.safeSchemes := by
+/-- Regression of finding C06-scheme-punct for `url()`: `color: url(h-t-t-p:x)` is dropped now. -/
+theorem css_scheme_punct_rejected :
+    sanitize styleCfg [.start divTag [(styleName, punctCss)], .end_ divTag] = .ok [.start divTag [], .end_ divTag] := by
   decide +kernel
 
 -- non-vacuity: the hypotheses hold for the default sets, and the filter acts on encoded payloads
@@ -394,16 +361,15 @@ example : sanitizeCss styleCfg ['t', 'o', 'p', ':', '\\', '5', 'c', ' ', '7', '5
 theorem attr_value_roundtrip (q : Bool) (v : Str) :
     stripentities (Genshi.Escape.escapeSpec q v) = .ok v := stripentities_escape q v
 
-/-- The URI guarantee (in its exception-free form, see `uri_attrs_scheme_mod_punct`) for the value as
-    written by a serializer and read back. -/
+/-- The URI guarantee for the value as written by a serializer and read back. -/
 theorem uri_attrs_scheme_serialised {cfg : Cfg} {s o : Stream} (h : sanitize cfg s = .ok o)
     {tag : QName} {attrs : AttrList} (hm : Event.start tag attrs ∈ o)
     {a : QName × Str} (ha : a ∈ attrs) (hu : a.1.text ∈ cfg.uriAttrs)
     {back sch : Str} (hr : stripentities (Genshi.Escape.escapeSpec true a.2) = .ok back)
-    (hb : browserScheme back = some sch) : dropPunct sch ∈ cfg.safeSchemes := by
+    (hb : browserScheme back = some sch) : sch ∈ cfg.safeSchemes := by
   rw [attr_value_roundtrip] at hr
   cases hr
-  exact uri_attrs_scheme_mod_punct h hm ha hu hb
+  exact uri_attrs_safe h hm ha hu hb
 
 -- non-vacuity: a value with all four escaped characters
 example : stripentities (Genshi.Escape.escapeSpec true ['a', '&', '<', '"', '>', '&', 'l', 't', ';']) =
@@ -438,6 +404,151 @@ theorem default_config_script_free :
         a ∈ Cfg.default.safeAttrs → a ∈ Cfg.default.uriAttrs) ∧
     styleWord ∉ Cfg.default.uriAttrs ∧ CssNamesPlain Cfg.default := by
   unfold CssNamesPlain
+  decide +kernel
+
+/-! ## After serialisation (markup level): the re-parse clause
+
+  "The same guarantees hold for the stream obtained by serialising that output as HTML or XHTML
+  and parsing it again": the sanitized forest is rendered by the serializer model of work package
+  `out` (`Genshi.Output.render`, tied to genshi's serializers in C08/C09) and read back by the
+  spec-side tokenizer `Genshi.Reader.tokens` (which stands for html.parser / expat in C08 and is
+  compared with them on every run there).  Every token read back carries the guarantees
+  (`TokSafe`): start and end tags with safe names, only safe attribute names, URI attribute values
+  with a safe scheme, style values that decode to themselves and hold neither `expression(` nor an
+  unsafe `url(`, and no comment, processing instruction or DOCTYPE at all.
+
+  `_partial`: the hypotheses are those of C08's tree round trips — `strip_whitespace=False`, no
+  doctype option, input leaves are plain (non-Markup) text or comments (`plainForest`; PIs, DOCTYPE,
+  CDATA and namespace events are not covered), and the names of the configuration can be written as
+  markup (`CfgMarkupOk`, true of the default sets: `default_config_markup_ok`); for XHTML
+  additionally no LF/TAB/CR in the emitted attribute values (finding C08-attr-ws). -/
+
+theorem html_reparse_safe_partial {cfg : Cfg} (hm : CfgMarkupOk cfg) (hcss : CssNamesPlain cfg)
+    (cache dropd : Bool) (ns : List Node) (hok : okList ns = true) (hpl : plainForest ns = true) :
+    ∃ p toks, sanitize cfg (flattenList ns) = .ok (flattenList p) ∧
+      (Genshi.Output.render .html { strip := false, cache := cache, doctype := none, dropXmlDecl := dropd }
+          (flattenList p)).bind (Genshi.Reader.tokens false) = some toks ∧
+      ∀ t ∈ toks, TokSafe cfg t := by
+  obtain ⟨p, hp⟩ : ∃ p, pruneList cfg ns = .ok p := by
+    have h1 := keep_list cfg ns [] hok
+    obtain ⟨o, ho⟩ := sanitizeFrom_ok cfg St.init (flattenList ns ++ [])
+    cases hp : pruneList cfg ns with
+    | ok p => exact ⟨p, rfl⟩
+    | error e => rw [h1, hp] at ho; cases ho
+  have hgood := pruneList_good cfg ns p hpl hp
+  obtain ⟨h1, h2, h3⟩ := forest_in_html_domain hm p hgood
+  refine ⟨p, _, ?_, Genshi.Props.C08.html_roundtrip_tree_partial cache dropd p h1 h2 h3, ?_⟩
+  · have := keep_list cfg ns [] hok
+    simp only [List.append_nil] at this
+    unfold sanitize
+    rw [this, hp]
+    simp [sanitizeFrom]
+  · exact assemble_safe (forestPieces_safe css_comments_dotall hm hcss p hgood)
+
+theorem xhtml_reparse_safe_partial {cfg : Cfg} (hm : CfgMarkupOk cfg) (hcss : CssNamesPlain cfg)
+    (cache : Bool) (ns : List Node) (hok : okList ns = true) (hpl : plainForest ns = true) :
+    ∃ p, sanitize cfg (flattenList ns) = .ok (flattenList p) ∧
+      (forestAttrVals p = true →
+        ∃ toks, (Genshi.Output.render .xhtml { strip := false, cache := cache, doctype := none, dropXmlDecl := true }
+            (flattenList p)).bind (Genshi.Reader.tokens true) = some toks ∧
+          ∀ t ∈ toks, TokSafe cfg t) := by
+  obtain ⟨p, hp⟩ : ∃ p, pruneList cfg ns = .ok p := by
+    have h1 := keep_list cfg ns [] hok
+    obtain ⟨o, ho⟩ := sanitizeFrom_ok cfg St.init (flattenList ns ++ [])
+    cases hp : pruneList cfg ns with
+    | ok p => exact ⟨p, rfl⟩
+    | error e => rw [h1, hp] at ho; cases ho
+  have hgood := pruneList_good cfg ns p hpl hp
+  obtain ⟨h1, h2, _⟩ := forest_in_html_domain hm p hgood
+  refine ⟨p, ?_, fun hv => ⟨_, Genshi.Props.C08.xhtml_roundtrip_tree_partial cache p h1 h2
+    (forest_in_xhtml_domain hm p hgood hv), ?_⟩⟩
+  · have := keep_list cfg ns [] hok
+    simp only [List.append_nil] at this
+    unfold sanitize
+    rw [this, hp]
+    simp [sanitizeFrom]
+  · exact assemble_safe (forestPiecesX_safe css_comments_dotall hm hcss p hgood)
+
+/-- **Every emitted attribute value is a fixed point of reference decoding** (all configurations,
+    all streams): the filter decodes until nothing is left and drops a style text that still
+    holds a reference, so a reader that decodes attribute values once more — genshi's own
+    HTMLParser applies `stripentities` to what html.parser has already decoded — ends up with the
+    very value that was checked. -/
+theorem attr_values_decode_stable {cfg : Cfg} {s o : Stream} (h : sanitize cfg s = .ok o)
+    {tag : QName} {attrs : AttrList} (hm : Event.start tag attrs ∈ o)
+    {a : QName × Str} (ha : a ∈ attrs) : stripentities a.2 = .ok a.2 := by
+  obtain ⟨st1, e, _, hem⟩ := sanitizeFrom_mem h _ hm
+  cases hem with
+  | start tag' attrs0 as he hw hsafe has =>
+    obtain ⟨a0, _, hsa⟩ := sanAttrs_mem has a ha
+    exact (sanAttr_some hsa).stable
+  | other hw hns hnc => exact absurd rfl (hns tag attrs)
+
+/-- Why the fixed point matters (regression of finding C06-redecode, fixed): the once-decoded value
+    `&#106;avascript:x` is accepted by `is_safe_uri` (nothing before the `#`), yet one more
+    decoding makes it `javascript:x`.  The repaired filter never emits it: it decodes on and
+    drops the attribute. -/
+theorem redecode_witness :
+    isSafeUri Cfg.default ['&', '#', '1', '0', '6', ';', 'a', 'v', 'a', 's', 'c', 'r', 'i', 'p', 't', ':', 'x'] = true ∧
+    stripentities ['&', '#', '1', '0', '6', ';', 'a', 'v', 'a', 's', 'c', 'r', 'i', 'p', 't', ':', 'x'] =
+      .ok ['j', 'a', 'v', 'a', 's', 'c', 'r', 'i', 'p', 't', ':', 'x'] ∧
+    sanitize Cfg.default [.start aTag [(hrefName, ['&', 'a', 'm', 'p', ';', '#', '1', '0', '6', ';', 'a', 'v', 'a', 's',
+      'c', 'r', 'i', 'p', 't', ':', 'x'])], .end_ aTag] = .ok [.start aTag [], .end_ aTag] := by
+  decide +kernel
+
+/-- The re-parse clause through genshi's own HTML parser layer (model of work package `parse`,
+    `Genshi.Parse.htmlStep`, with `stripentities` for its `strip` parameter, any `str.lower`, any
+    table of void elements): the tokens read back from the HTML serialisation of the sanitized
+    forest, handed to the layer one callback each, make it fail nowhere and build only safe
+    events (`EventSafe`: safe tags, safe attribute names, `ValueSafe` values), the end tags it
+    supplies itself included.  `_partial`: same hypotheses as `html_reparse_safe_partial`. -/
+theorem html_reparse_events_safe_partial {cfg : Cfg} (hm : CfgMarkupOk cfg) (hcss : CssNamesPlain cfg)
+    (cache dropd : Bool) (lower : Str → Str) (void : List Str)
+    (ns : List Node) (hok : okList ns = true) (hpl : plainForest ns = true) :
+    ∃ p toks evs, sanitize cfg (flattenList ns) = .ok (flattenList p) ∧
+      (Genshi.Output.render .html { strip := false, cache := cache, doctype := none, dropXmlDecl := dropd }
+          (flattenList p)).bind (Genshi.Reader.tokens false) = some toks ∧
+      layerRun (layerEnv lower void) [] toks = .ok evs ∧ ∀ e ∈ evs, EventSafe cfg e := by
+  obtain ⟨p, toks, h1, h2, h3⟩ := html_reparse_safe_partial hm hcss cache dropd ns hok hpl
+  obtain ⟨evs, h4, h5⟩ := layerRun_safe hm lower void toks [] (by simp) h3
+  exact ⟨p, toks, evs, h1, h2, h4, h5⟩
+
+/-- The names of the default configuration can be written as markup (re-checked against the
+    generated sets): hypothesis `CfgMarkupOk` of the two theorems above. -/
+theorem default_config_markup_ok : CfgMarkupOk Cfg.default ∧ CfgMarkupOk styleCfg := by
+  constructor <;> constructor <;> decide +kernel
+
+-- non-vacuity: a nested payload goes through sanitizer, HTML serializer and reader
+example : (do
+    let o ← (sanitize styleCfg [.start divTag [(styleName, punctCss), (hrefName, jsUri)], .start scriptTag [],
+      .text ['x'] false, .end_ scriptTag, .text ['a', '<', 'b'] false, .comment ['c'], .end_ divTag]).toOption
+    let txt ← Genshi.Output.render .html { strip := false, cache := true, doctype := none, dropXmlDecl := true } o
+    Genshi.Reader.tokens false txt) =
+    some [.start ['d', 'i', 'v'] [] false, .text ['a', '<', 'b'], .end_ ['d', 'i', 'v']] := by decide +kernel
+
+/-! ## The order of the two CSS passes
+
+  `sanitize_css` decodes escapes first and removes comments afterwards.  `css_decode_fixed`
+  depends on that order: with the passes swapped (comments first), a comment whose delimiters are
+  themselves escaped (`\2f\2a … \2a\2f`) only appears after decoding, survives, and the emitted
+  text is no fixed point of the browser-side decoder — it hides `expression(`. -/
+
+/-- `sanitize_css` with its two normalisation passes in the wrong order -/
+def sanitizeCssSwapped (cfg : Cfg) (text : Str) : Except Err (List Str) := do
+  let t ← unescapeCss (stripCssComments (normalizeNewlines text))
+  pure ((splitOn ';' t).filterMap (cssDecl cfg))
+
+def orderPayload : Str :=
+  ['t', 'o', 'p', ':', 'e', 'x', 'p', '\\', '2', 'f', '\\', '2', 'a', 'x', '\\', '2', 'a', '\\', '2', 'f', 'r', 'e', 's', 's',
+   'i', 'o', 'n', '(', '1', ')']
+
+theorem css_pass_order_matters :
+    -- the code's order: recognised and dropped
+    sanitizeCss styleCfg orderPayload = .ok [] ∧
+    -- swapped: emitted, not a fixed point of the browser's decoding, which reveals `expression(`
+    (∃ d, sanitizeCssSwapped styleCfg orderPayload = .ok [d] ∧ cssDecode d ≠ d ∧
+      hasExpression (cssDecode d) = true) := by
+  refine ⟨by decide +kernel, ['t', 'o', 'p', ':', 'e', 'x', 'p', '/', '*', 'x', '*', '/', 'r', 'e', 's', 's', 'i', 'o', 'n', '(', '1', ')'], ?_⟩
   decide +kernel
 
 end Genshi.Props.C06
